@@ -21,9 +21,11 @@ func VerifC07Slot() {
 
 	before := verifU64("before")
 	until := verifU64("until")
-	verifAssume(before <= 1<<24 && until <= 1<<24)
+	if bits := uint(verifParam("slot_bits", 24)); bits < 64 {
+		verifAssume(before <= 1<<bits && until <= 1<<bits)
+	}
 	limit := verifInt("limit")
-	verifAssume(limit >= -1 && limit <= N+1)
+	verifAssume(limit >= -1 && limit <= 1<<31)
 
 	slots := make([]uint64, N)
 	for i, e := range w.hist {
@@ -40,13 +42,16 @@ func VerifC07Slot() {
 	verifAssert(err == nil, "C07.slot: GetBeforeUntilSlot failed (an epoch without the address must be skipped)")
 	got := w.flatten(m, "C07.slot")
 
-	// (a1) lower bound
-	for _, e := range got {
-		verifAssert(slots[e.id-1] >= until, "C07.slot: returned a transaction with slot < until")
-	}
 	// (b) a contiguous newest-first run of the history
 	for j, e := range got {
 		verifAssert(e.id == got[0].id+j, "C07.slot: result is not a contiguous newest-first run of the history")
+	}
+	// known finding: `tx.Slot < int(until)` - for until >= 2^63 the conversion turns negative and the
+	// lower bound is never applied
+	verifKnownFinding("C07-slot-until-int-overflow", until >= 1<<63)
+	// (a1) lower bound
+	for _, e := range got {
+		verifAssert(slots[e.id-1] >= until, "C07.slot: returned a transaction with slot < until")
 	}
 	// known finding S8: the upper bound `before` is only applied per epoch, never per transaction:
 	// entries of the epoch that contains `before` with slot >= before are returned.
